@@ -291,6 +291,13 @@ def make_xy(curve, recipe, i):
         X, Y = 0, 0
     elif recipe == "swapxy":
         X, Y = y, x
+    elif recipe in ("smallx", "leadzero"):
+        # a VALID point whose abscissa has leading zero bytes (x < 2^16 resp. x < 2^(8(n-2))): its DH outputs with the
+        # scalars 1 and n-1 are that abscissa - shared secrets with leading zeros, the classic truncation trap
+        x0 = (1 + 997 * i) if recipe == "smallx" else r.randrange(1 << (8 * (n - 2)))
+        while prims.nist_lift_x(curve, x0) is None:
+            x0 += 1
+        X, Y = x0, prims.nist_lift_x(curve, x0)
     elif recipe == "xplusp":
         # a curve point whose abscissa is small enough for x + p to fit: a non-canonical encoding of a VALID point
         x0 = 1000 * i
@@ -323,7 +330,7 @@ def make_sk(curve, recipe, i):
     N, order = c.sk_len, c.n
     top = (1 << (8 * N)) - 1
     r = _rng("sk", curve, recipe, i)
-    v = {"zero": 0, "one": 1, "nminus1": order - 1, "n": order, "nplus1": order + 1, "max": top}.get(recipe)
+    v = {"zero": 0, "one": 1, "two": 2, "nminus1": order - 1, "n": order, "nplus1": order + 1, "max": top}.get(recipe)
     if recipe == "mid":
         v = r.randrange(2, order - 1)
     elif recipe == "nplusmid":
